@@ -198,6 +198,17 @@ func (se *ScriptEnv) transform(req, reply []byte) ([]byte, error) {
 			return sess.Wrap([]byte{0x81, 0x1c, 0x63, 0x20, 0x04}, refbmc.WrapOpts{}), nil
 		}
 		return []byte{6, 0, 0xff, 7, 6}, nil
+	case "garbage:reflect":
+		// the console's own request comes back (a reflector, or the other end issuing the same
+		// command): same NetFn pair and command, but a request, not a response
+		if last := se.BMC.Last(); last != nil {
+			if sess != nil && sess.Active && last.Kind == "session-ipmi" {
+				m := refbmc.BuildRsp(0x81, last.NetFn&^1, 0, 0x20, last.RqSeq, 0, last.Cmd, 0, last.Data)
+				return sess.Wrap(m, refbmc.WrapOpts{}), nil
+			}
+			return append([]byte(nil), req...), nil
+		}
+		return nil, nil
 	case "stray:othercmd":
 		// a well-formed (in-session: authentic) response to a different command
 		if last := se.BMC.Last(); last != nil {
